@@ -1,4 +1,4 @@
-// vinstr: spike of the source rewriter. usage: vinstr -mod <modpath> -instr a.go,b.go -dir <dir>
+// vinstr: source rewriter of engine E1 (DESIGN.md 3.1). usage: vinstr -mod <modpath> -instr a.go,b.go -dir <dir>
 package main
 
 import (
@@ -43,6 +43,7 @@ func main() {
 
 type rw struct {
 	fset     *token.FileSet
+	fn       string
 	file     string
 	nPoint   int
 	labelSeq int
@@ -78,6 +79,7 @@ func rewriteFile(path string, full bool) error {
 			if !ok || fd.Body == nil || fd.Name.Name == "init" {
 				continue
 			}
+			r.fn = fd.Name.Name
 			r.block(fd.Body, nil)
 		}
 		if r.usesVS {
@@ -123,7 +125,7 @@ func (r *rw) vs(fn string, args ...ast.Expr) *ast.CallExpr {
 func (r *rw) point(pos token.Pos) ast.Stmt {
 	p := r.fset.Position(pos)
 	r.nPoint++
-	return &ast.ExprStmt{X: r.vs("Point", &ast.BasicLit{Kind: token.STRING, Value: strconv.Quote(fmt.Sprintf("%s:%d", r.file, p.Line))})}
+	return &ast.ExprStmt{X: r.vs("Point", &ast.BasicLit{Kind: token.STRING, Value: strconv.Quote(fmt.Sprintf("%s:%d:%s", r.file, p.Line, r.fn))})}
 }
 
 // loopCtx tracks the nearest enclosing for statement (for continue-label fixing)
